@@ -341,8 +341,32 @@ var rStackSlot = &Rule{
 			c.InternalErr("withstack.GetReportableStackTrace/GetOneLineSource", "anchor functions not found")
 			return
 		}
-		keysOf := func(fn *ssa.Function) map[string]bool {
+		var keysOf func(fn *ssa.Function) map[string]bool
+		depthKO := 0
+		keysOf = func(fn *ssa.Function) map[string]bool {
 			out := map[string]bool{}
+			// the key test may live in a helper of the package that receives the error
+			if depthKO < 2 {
+				sx.EachInstr(fn, func(in ssa.Instruction) {
+					call, ok := in.(*ssa.Call)
+					if !ok {
+						return
+					}
+					f := sx.Callee(call)
+					if f == nil || f.Blocks == nil || load.FnPkg(f) == nil || load.FnPkg(f) != load.FnPkg(fn) {
+						return
+					}
+					for _, a := range call.Call.Args {
+						if len(fn.Params) > 0 && a == ssa.Value(fn.Params[0]) {
+							depthKO++
+							for k := range keysOf(f) {
+								out[k] = true
+							}
+							depthKO--
+						}
+					}
+				})
+			}
 			sx.EachInstr(fn, func(in ssa.Instruction) {
 				bo, ok := in.(*ssa.BinOp)
 				if !ok || bo.Op != token.EQL {
